@@ -175,6 +175,21 @@ Theorem assignment_spec (md : model (F:=R)) p vs md' :
 Proof. exact (model_set_spec Rpos0 Risz backward no_ovf 0 Rpos0_zero md p vs md'). Qed.
 Print Assumptions assignment_spec.
 
+(* augmented assignment (model.p *= k, += k, -= k, /= k): accepted exactly when
+   plain assignment of the resulting values would be; the stored array holds the
+   resulting values either way (numpy operates in place before the setter runs);
+   on a None property the operator raises TypeError *)
+Theorem augmented_assignment_spec (md : model (F:=R)) p vs :
+  (snd (model_aug Rpos0 Risz backward no_ovf 0 md p vs) = None <->
+   get_prop md p <> None /\
+   List.Forall (accepts Rpos0 Risz backward no_ovf 0 (m_map md) p) vs) /\
+  (get_prop md p <> None ->
+   fst (model_aug Rpos0 Risz backward no_ovf 0 md p vs) = set_prop md p (Some vs)) /\
+  (get_prop md p = None ->
+   model_aug Rpos0 Risz backward no_ovf 0 md p vs = (md, Some ErrType)).
+Proof. exact (model_aug_spec Rpos0 Risz backward no_ovf 0 Rpos0_zero md p vs). Qed.
+Print Assumptions augmented_assignment_spec.
+
 Theorem none_property_cannot_be_set (md : model (F:=R)) p vs :
   get_prop md p = None -> model_set Rpos0 Risz backward no_ovf 0 md p vs = inr ErrNone.
 Proof. exact (none_cannot_be_set Rpos0 Risz backward no_ovf 0 md p vs). Qed.
